@@ -7,6 +7,7 @@ import Spydr.Edif.LemmasLex
 import Spydr.Edif.LemmasNames
 import Spydr.Edif.LemmasPins
 import Spydr.Edif.LemmasCell
+import Spydr.Edif.LemmasNet
 namespace Spydr.Edif.C03
 open Spydr.Edif
 
@@ -65,36 +66,57 @@ Full statement (C03, stretch goal of DESIGN §6), kept here for reference:
 
     theorem edif_roundtrip (n : CNetlist) (ts : List Nat) :
         WF n → Named n → Expressible n → TopoOrdered n →
-        ∃ e n', toSExp ts n = .ok e ∧ ofSExp e = .ok n' ∧ view03 n' = view03 n
-    theorem parse_compose_parse : ofSExp e = .ok n → ∃ e' n', toSExp ts (edifified n) = .ok e' ∧
-        ofSExp e' = .ok n' ∧ view03 n' = view03 n
+        ∃ text n', composeE ts n = .ok text ∧ readEdif text = .ok n' ∧ view03 n' = view03 n
+    theorem parse_compose_parse : readEdif f = .ok n → (same conclusion for the edifified n)
 
 where `n` is the netlist after `_edifify_netlist` (libraries / cells in the writer's order, every
-object with its EDIF.identifier).  With `read_lex_layout` the characters in between drop out.
+object with its EDIF.identifier; both are read back from the implementation by the harness).
 
-Proved: the statement for ONE CELL in the reader's scope (`edif_roundtrip_partial` below): ports,
-instances (reference, properties) and cables (name, base index, every wire's pins in order) of the
-re-read cell are those of the written cell.  The hypotheses `CellOK` are the per-cell content of
-WF / Named / Expressible / TopoOrdered: legal identifiers, printable names, pairwise different sibling
-names and identifiers, non-empty ports and cables, scalar cables not named like a bus bit, every pin
-on at most one wire, every instance's reference resolving — in the scope the reader has when it
-reaches the cell — to the re-read image of the referenced cell.
-Missing for the full statement: (1) the fold of this theorem over the cells of a library and the
-libraries of the netlist (maintaining "the cells read so far are the images of the cells written so
-far", which discharges the resolution hypotheses of `InstOK`/`PinOK` from case-insensitive
-distinctness and the topological order), (2) the `(status …)` block and the `(design …)` construct,
-(3) the projection to `view03`.  These are covered by the correspondence check (writer tokens,
-reader on the written text) and by P evaluated on the implementation for every generated netlist.
+Proved (`edif_roundtrip_partial` below): the statement at FILE level, from characters to netlist,
+under the hypothesis `NetOK`, which is the explicit, per-element form of WF ∧ Named ∧ Expressible ∧
+TopoOrdered *as the reader meets it*: legal identifiers, printable names and strings, pairwise
+different sibling names / identifiers-ignoring-case, non-empty ports and cables, scalar cables not
+named like a bus bit, every pin on at most one wire, canonical property dictionaries, and — for every
+reference (instance → cell, pin → port, design → top cell) — that the identifier written resolves,
+in the scope the reader has at that point, to the re-read image of the element referred to.
+The conclusion gives the re-read netlist in closed form (`readNetlist`): same libraries in the same
+order, each cell with the same ports / instances / cables (`readCell`, `readCell_ports`,
+`readCell_cables`), same top instance name and reference, same netlist name.
+
+Missing for the full statement: (1) deriving the resolution hypotheses of `InstOK.target`,
+`PinOK`, `NetOK.target` from case-insensitive distinctness + topological order of the ORIGINAL netlist
+(they follow from `resolve_ci_declared` and the closed forms of `readLibs`/`readDefs`, an index
+book-keeping argument that is not written down), (2) packaging the closed form as `view03` equality.
+Both gaps are covered on every generated netlist by the correspondence check and by P evaluated on
+the implementation.
 -/
 
-/-- **edif_roundtrip_partial / cell_roundtrip** — for a well-formed, named, expressible cell whose
-    references resolve in the reader's scope, the reader applied to the s-expression the writer
-    emits for the cell returns a cell with the same name and identifier, the same ports (order,
-    name, identifier, direction, width, array-ness), the same instances (name, identifier,
-    referenced cell and library, properties with their types) and the same cables (name, identifier,
-    array-ness, base index, every wire joined to the same port bits and instance pin bits in the
-    same order). -/
-theorem edif_roundtrip_partial (libs : List CLib) (sc : Scope) (d : CDef) (ident name : Str) (iws : List IW)
+/-- **edif_roundtrip_partial / netlist_roundtrip** — characters to netlist: the text the model writer
+    lays out for a netlist satisfying `NetOK` is accepted by the model reader (tokenizer,
+    s-expression reader, `ofSExp`) and yields the netlist `readNetlist`: the same libraries, cells,
+    ports, instances, cables, top design and names. -/
+theorem edif_roundtrip_partial (n : CNetlist) (nident nname : Str) (prog ver : Option Str) (lws : List LW) (t : CInst)
+    (tident tname : Str) (li di : Nat) (y mo d h mi s : Nat)
+    (hok : NetOK n nident nname prog ver lws t tident tname li di) :
+    ∃ e, toSExp [y, mo, d, h, mi, s] n = .ok e ∧
+      ofSExp e = .ok (readNetlist n nident nname
+        [Int.ofNat y, Int.ofNat mo, Int.ofNat d, Int.ofNat h, Int.ofNat mi, Int.ofNat s] prog ver lws tident tname li di) ∧
+      (e.clean → ∃ text, composeE [y, mo, d, h, mi, s] n = .ok text ∧
+        readEdif text = .ok (readNetlist n nident nname
+          [Int.ofNat y, Int.ofNat mo, Int.ofNat d, Int.ofNat h, Int.ofNat mi, Int.ofNat s] prog ver lws tident tname li di)) := by
+  obtain ⟨e, hw, hr⟩ := netlist_roundtrip n nident nname prog ver lws t tident tname li di y mo d h mi s hok
+  refine ⟨e, hw, hr, ?_⟩
+  intro hc
+  refine ⟨layoutE e, by simp [composeE, hw, bind, Except.bind, pure, Except.pure], ?_⟩
+  simp [readEdif, Spydr.Edif.read_lex_layout e hc, hr]
+
+/-- **edif_roundtrip_cell / cell_roundtrip** — the statement for ONE cell in the reader's scope: the
+    reader applied to the s-expression the writer emits for the cell returns a cell with the same
+    name and identifier, the same ports (order, name, identifier, direction, width, array-ness), the
+    same instances (name, identifier, referenced cell and library, properties with their types)
+    and the same cables (name, identifier, array-ness, base index, every wire joined to the same
+    port bits and instance pin bits in the same order). -/
+theorem edif_roundtrip_cell (libs : List CLib) (sc : Scope) (d : CDef) (ident name : Str) (iws : List IW)
     (h : CellOK libs sc d ident name iws) :
     ∃ r, defSExp libs d = .ok (.list (A "Cell" :: r)) ∧
       parseCell sc (A "Cell" :: r) = .ok (readCell d ident name iws) :=
@@ -203,10 +225,50 @@ theorem top_CellOK : CellOK [lib0] sc top "top_".toList "top$".toList [iw] := by
 /-- hence the conclusion holds for it: the reader rebuilds `top` from the writer's text -/
 example : ∃ r, defSExp [lib0] top = .ok (.list (A "Cell" :: r)) ∧
     parseCell sc (A "Cell" :: r) = .ok (readCell top "top_".toList "top$".toList [iw]) :=
-  edif_roundtrip_partial _ _ _ _ _ _ top_CellOK
+  edif_roundtrip_cell _ _ _ _ _ _ top_CellOK
 
 example : (readCell top "top_".toList "top$".toList [iw]).cables.map (fun c => (c.lower, c.wires)) =
     [(0, [[CPin.port 0 0, CPin.inst 0 0 0]]), (4, [[CPin.inst 0 1 0], [CPin.inst 0 1 1]])] := by decide +kernel
+
+/-- the whole netlist: library `work` = [leaf, top], design `top` -/
+def n0 : CNetlist :=
+  { data := nd "design1", libs := [lib0],
+    top := some { data := nd "top", ref := some (0, 1) } }
+
+def lw0 : LW := ⟨"work".toList, "work".toList, [⟨"leaf".toList, "leaf".toList, []⟩, ⟨"top_".toList, "top$".toList, [iw]⟩]⟩
+
+theorem leaf_CellOK : CellOK [lib0] { libs := [], curLib := withName [] "work".toList "work".toList, curDefs := [] }
+    leaf "leaf".toList "leaf".toList [] := by
+  refine ⟨named "leaf" (by decide) (by decide), ?_, trivial, trivial, by decide⟩
+  show _ ∧ _ ∧ _ ∧ _ ∧ _ ∧ _ ∧ _ ∧ _ ∧ _
+  refine ⟨named "A" (by decide) (by decide), by decide, fun _ => rfl, fresh_nil _ _,
+    named "B" (by decide) (by decide), by decide, fun h => by simp [CPort.isArray, CPort.isScalar] at h, ?_, trivial⟩
+  intro p hp
+  simp only [List.mem_singleton] at hp
+  subst hp
+  exact ⟨by decide, by decide⟩
+
+theorem n0_NetOK : NetOK n0 "design1".toList "design1".toList none none [lw0] { data := nd "top", ref := some (0, 1) }
+    "top".toList "top".toList 0 1 := by
+  refine ⟨named "design1" (by decide) (by decide), ⟨rfl, fun h => (by simp at h), fun p hp => (by cases hp),
+    fun v hv => (by cases hv)⟩, ?_, rfl, named "top" (by decide) (by decide), rfl, ?_⟩
+  · show _ ∧ _ ∧ _
+    refine ⟨⟨named "work" (by decide) (by decide), ?_⟩, fresh_nil _ _, trivial⟩
+    show _ ∧ _ ∧ _ ∧ _ ∧ _
+    refine ⟨leaf_CellOK, fresh_nil _ _, top_CellOK, ?_, trivial⟩
+    intro p hp
+    simp only [List.mem_singleton] at hp
+    subst hp
+    exact ⟨by decide, by decide⟩
+  · exact ⟨lib0, top, "top_".toList, "work".toList, LW.read lib0 lw0, rfl, rfl, rfl, rfl, by decide, by decide,
+      by decide +kernel, rfl, by decide +kernel⟩
+
+/-- hence: the reader rebuilds the whole netlist from the text the writer lays out for it -/
+example : ∃ e, toSExp [2026, 9, 27, 8, 5, 3] n0 = .ok e ∧
+    ofSExp e = .ok (readNetlist n0 "design1".toList "design1".toList [2026, 9, 27, 8, 5, 3] none none [lw0]
+      "top".toList "top".toList 0 1) :=
+  let ⟨e, h1, h2, _⟩ := edif_roundtrip_partial n0 _ _ _ _ _ _ _ _ _ _ 2026 9 27 8 5 3 n0_NetOK
+  ⟨e, h1, h2⟩
 
 end Example
 
